@@ -11,6 +11,7 @@ import (
 	"strings"
 
 	"golang.org/x/tools/go/packages"
+	"golang.org/x/tools/go/types/typeutil"
 )
 
 const modPath = "github.com/notaryproject/notation-core-go"
@@ -150,6 +151,35 @@ func loadProg(dir string, goos, goarch string) (*Prog, error) {
 	}
 	typeHasNoUnwrapIs = func(s string) bool { return noUnwrap[s] }
 	return p, nil
+}
+
+// CallSite is a resolved call in product code.
+type CallSite struct {
+	Fn     *FuncSrc
+	Call   *ast.CallExpr
+	Callee string // abbreviated full name
+}
+
+// callSites lists all calls in product code whose resolved callee satisfies pred.
+func (p *Prog) callSites(pred func(name string) bool) []CallSite {
+	var out []CallSite
+	for _, fs := range p.productFuncs() {
+		info := fs.Pkg.TypesInfo
+		ast.Inspect(fs.Decl.Body, func(n ast.Node) bool {
+			call, ok := n.(*ast.CallExpr)
+			if !ok {
+				return true
+			}
+			if fn, ok := typeutil.Callee(info, call).(*types.Func); ok {
+				name := p.abbrev(fn.FullName())
+				if pred(name) {
+					out = append(out, CallSite{Fn: fs, Call: call, Callee: name})
+				}
+			}
+			return true
+		})
+	}
+	return out
 }
 
 // abbrev shortens the module path in names to "ncg".
